@@ -162,6 +162,7 @@ func (e *Explorer) explore(prefix []int, usedK, usedD int, depth int) {
 			e.Stats.Horizon++
 		}
 		cls := ""
+		x.Prefix = prefix
 		if e.Classify != nil {
 			cls = e.Classify(x)
 		} else {
